@@ -2,6 +2,8 @@ package main
 
 import (
 	"fmt"
+	"go/token"
+	"strings"
 
 	"golang.org/x/tools/go/ssa"
 )
@@ -20,6 +22,9 @@ func init() {
 	}, runC18)
 
 	addVariants(
+		Variant{ID: "c18-r5-interval-order-by-difference", Prop: "C18", File: "replication/mysql56_gtid_set.go",
+			Old: "func (s intervalList) Less(i, j int) bool { return s[i].start < s[j].start }", New: "func (s intervalList) Less(i, j int) bool { return s[i].start-s[j].start < 0 }",
+			Expect: "C18-R5 order@"},
 		Variant{ID: "c18-r1-merge-in-place", Prop: "C18", File: "replication/mysql56_gtid_set.go",
 			Old: "\t// Make a copy and add the new GTID in the proper place.\n", New: "\tif ivs := set[gtid56.Server]; len(ivs) > 0 && ivs[len(ivs)-1].end+1 == gtid56.Sequence {\n\t\tivs[len(ivs)-1].end = gtid56.Sequence\n\t\treturn set\n\t}\n",
 			Expect: "C18-R1 receiver-write@AddGTID"},
@@ -69,6 +74,7 @@ func runC18(a *A) {
 	c18R2(a)
 	c18R3(a)
 	c18R4(a)
+	c18R5(a)
 }
 
 // R4: AddGTID carries every interval of the receiver over: the loops that range over receiver-derived lists leave only through
@@ -299,4 +305,115 @@ func c18R3(a *A) {
 		}
 		a.check(ok, rule, "sorted@SIDs", w.pos(s.Pos()), "SID list sorted before it is returned", "SIDs() returns the map's iteration order: String() and SIDBlock() are not canonical")
 	}
+}
+
+// R5: the comparators that establish canonical order are total orders. Instances: the Less methods of the package's
+// sort.Interface types and the functions handed to sort.Slice / SliceStable / slices.SortFunc. A comparator that
+// decides by the sign of a difference (a-b < 0, or returns a-b) is an order only while the difference cannot wrap: both
+// operands must be bounded below the width of the (signed) difference; otherwise distant keys compare inverted, the
+// relation is not transitive and the "sorted" output is not canonical.
+func c18R5(a *A) {
+	const rule = "C18-R5"
+	w := a.W
+	var cmps []*ssa.Function
+	seen := map[*ssa.Function]bool{}
+	add := func(f *ssa.Function) {
+		if f != nil && f.Blocks != nil && !seen[f] {
+			seen[f] = true
+			cmps = append(cmps, f)
+		}
+	}
+	for _, f := range w.srcFuncs(w.Repl) {
+		if f.Name() == "Less" && f.Signature.Recv() != nil && f.Signature.Params().Len() == 2 && f.Signature.Results().Len() == 1 {
+			add(f)
+		}
+		instrs(f, func(in ssa.Instruction) {
+			c, ok := in.(*ssa.Call)
+			if !ok {
+				return
+			}
+			cal := c.Common().StaticCallee()
+			if cal == nil || cal.Pkg == nil {
+				return
+			}
+			pp := cal.Pkg.Pkg.Path()
+			if !(pp == "sort" && (cal.Name() == "Slice" || cal.Name() == "SliceStable") || pp == "slices" && strings.HasPrefix(cal.Name(), "Sort")) {
+				return
+			}
+			for _, arg := range c.Common().Args {
+				switch x := arg.(type) {
+				case *ssa.MakeClosure:
+					add(x.Fn.(*ssa.Function))
+				case *ssa.Function:
+					add(x)
+				}
+			}
+		})
+	}
+	for _, f := range cmps {
+		a.touch(f)
+		t := newTB(Specialize(f, nil, nil))
+		bad := ""
+		var badPos ssa.Instruction
+		nSub := 0
+		instrs(f, func(in ssa.Instruction) {
+			bo, ok := in.(*ssa.BinOp)
+			if !ok || bo.Op != token.SUB {
+				return
+			}
+			bits, _, isInt := intBits(bo.Type())
+			if !isInt {
+				return
+			}
+			// does the difference decide the order: compared with a constant, or returned, possibly through conversions
+			decides := false
+			var walk func(v ssa.Value, d int)
+			walk = func(v ssa.Value, d int) {
+				if d > 4 || v.Referrers() == nil {
+					return
+				}
+				for _, ref := range *v.Referrers() {
+					switch r := ref.(type) {
+					case *ssa.Convert:
+						if b2, _, ok := intBits(r.Type()); ok && b2 < bits {
+							bits = b2
+						}
+						walk(r, d+1)
+					case *ssa.ChangeType:
+						walk(r, d+1)
+					case *ssa.Phi:
+						walk(r, d+1)
+					case *ssa.BinOp:
+						switch r.Op {
+						case token.LSS, token.GTR, token.LEQ, token.GEQ:
+							_, cx := r.X.(*ssa.Const)
+							_, cy := r.Y.(*ssa.Const)
+							if cx || cy {
+								decides = true
+							}
+						}
+					case *ssa.Return:
+						decides = true
+					}
+				}
+			}
+			walk(bo, 0)
+			if !decides {
+				return
+			}
+			nSub++
+			bx, by := t.ubits(bo.X), t.ubits(bo.Y)
+			if bx >= bits || by >= bits {
+				bad = fmt.Sprintf("the order is decided by the sign of %s - %s computed in %d bits, but the operands can need %d and %d bits", describe(bo.X), describe(bo.Y), bits, bx, by)
+				badPos = bo
+			}
+		})
+		key := "order@" + fnName(f)
+		if bad != "" {
+			a.viol(rule, key, w.posOf(badPos), "%s: the difference wraps for keys far apart, the comparison inverts and is not transitive, so sorted output (SIDs(), String(), SIDBlock()) is not canonical", bad)
+		} else {
+			a.hold(rule, key, w.pos(f.Pos()), "no ordering decided by a difference that can wrap (%d difference-based comparison(s))", nSub)
+		}
+	}
+	a.atLeast(rule, "order@", 2)
 }
